@@ -103,7 +103,7 @@ OPS = {
     'choose': lambda i, a, b: ev.Choose(i, ev.stack(_align(a, b), -1)) if _shape(i) == _shape(_align(a, b)[0]) else _ill(),
     'polyval1': lambda pts, co: ev.Polyval(co, ev.InsertAxis(pts, C(1))),   # 1-variable polynomial, coefficient axis last
     'polyval2': lambda pts, co: ev.Polyval(co, pts),
-    'searchsorted': lambda a, name: ev.SearchSorted(a, array=ev.types.arraydata(numpy.sort(CVECS[name])), side='left', sorter=None) if a.dtype == CVECS[name].dtype.type or a.dtype in (int, float) else _ill(),
+    'searchsorted': lambda a, name: ev.SearchSorted(a, C(numpy.sort(CVECS[name])), None, 'left') if a.dtype == int else _ill(),
     # loops: (loop_sum body idx) where body contains ('lidx', name, n)
     'loop_sum': lambda body, idx: ev.loop_sum(body, idx),
     'loop_concat': lambda body, idx: ev.loop_concatenate(body, idx) if body.ndim else _ill(),
